@@ -183,14 +183,16 @@ func (c *client) dial(ctx context.Context, dialer DialConnFunc) (err error) {
 		conn.OnPacket(func(p *protocol.Packet, e error) {
 			c.onPacket(conn, p, e)
 		})
-		c.conn.OnClose(c.onConnClose)
+		conn.OnClose(func(e error) {
+			c.onConnClose(conn, e)
+		})
 	}
 	verifhook.Point("client.dial:done", verifhook.ID(c.conn))
 
 	return
 }
 
-func (c *client) onConnClose(err error) {
+func (c *client) onConnClose(conn ClientConn, err error) {
 	select {
 	case <-c.closeCh:
 		return
@@ -199,7 +201,7 @@ func (c *client) onConnClose(err error) {
 
 	c.Logger.Debugf("reconnect for conn closed: %v", err)
 
-	c.reconnecting()
+	c.reconnecting(conn)
 }
 
 func (c *client) auth() error {
@@ -230,15 +232,17 @@ func (c *client) auth() error {
 	return nil
 }
 
-func (c *client) reconnecting() {
-	verifhook.Point("reconnecting:enter")
+// reconnecting replaces conn, the conn which is lost, by a new one
+func (c *client) reconnecting(conn ClientConn) {
+	verifhook.Point("reconnecting:enter", verifhook.ID(conn))
 	// a closed client never reconnects
 	if c.closed() {
 		return
 	}
 
 	c.Lock()
-	if c.doReconnectting {
+	// conn is already replaced, or is being replaced: one loss causes one recovery
+	if c.doReconnectting || c.conn != conn {
 		c.Unlock()
 		return
 	}
@@ -478,7 +482,7 @@ func (c *client) Close(err error) error {
 	return nil
 }
 
-func (c *client) closeByServer(packet *protocol.Packet) {
+func (c *client) closeByServer(conn ClientConn, packet *protocol.Packet) {
 	var reason control.Close
 
 	if err := packet.Unmarshal(&reason); err != nil {
@@ -487,16 +491,11 @@ func (c *client) closeByServer(packet *protocol.Packet) {
 		c.Logger.Errorf("close by server, code: %v, reason: %s", reason.Code, reason.Reason)
 	}
 
-	// do not hold the lock while closing: the close callback takes the write lock to reconnect
-	c.RLock()
-	conn := c.conn
-	c.RUnlock()
+	// close the conn the packet came from, without holding the lock:
+	// the close callback takes the write lock to reconnect
+	conn.Close(errors.New("close by server"))
 
-	if conn != nil {
-		conn.Close(errors.New("close by server"))
-	}
-
-	c.reconnecting()
+	c.reconnecting(conn)
 }
 
 func (c *client) keepalive() {
@@ -555,16 +554,20 @@ func (c *client) keepalive() {
 		case <-c.closeCh:
 			return
 		case <-t.C:
+			c.RLock()
+			conn := c.conn
+			c.RUnlock()
+
 			if err := check(); err != nil {
 				c.Logger.Errorf("keepalive error: %v", err)
 				verifhook.Point("keepalive:timeout")
-				c.reconnecting()
+				c.reconnecting(conn)
 				continue
 			}
 
 			if err := ping(); err != nil {
 				c.Logger.Errorf("keepalive failed to ping, err: %v", err)
-				c.reconnecting()
+				c.reconnecting(conn)
 				continue
 			}
 		}
@@ -574,7 +577,7 @@ func (c *client) keepalive() {
 func (c *client) onPacket(conn ClientConn, packet *protocol.Packet, err error) {
 	if err != nil {
 		c.Logger.Errorf("conn receive packet error: %v", err)
-		c.reconnecting()
+		c.reconnecting(conn)
 		return
 	}
 
@@ -622,7 +625,7 @@ func (c *client) handleControl(conn ClientConn, packet *protocol.Packet) {
 	}
 
 	if packet.IsClose() {
-		c.closeByServer(packet)
+		c.closeByServer(conn, packet)
 		return
 	}
 
